@@ -177,9 +177,145 @@ pub fn handle(op: &str, a: &[&str]) -> Option<String> {
             }
             Some("ok shown".into())
         }
+        ("c12-lineaddr", [ins]) => c12_lineaddr(ins),
+        ("c12-cfiarith", [caf, daf, delta, f]) => Some(c12_cfiarith(caf.parse().ok()?, daf.parse().ok()?, delta.parse().ok()?, f.parse().ok()?)),
         ("c12-frame", [e, kind, asz, h]) => Some(c12_frame(endian(e)?, *kind == "eh", asz.parse().ok()?, &unhex(h)?)),
         _ => None,
     }
+}
+
+// ------------------------------------------------------------------------------------------------
+// correspondence of the two Lean models of Props/C12.lean with the code
+
+/// addresses (and end flags) of the rows gimli reads from the only unit's line program
+fn line_row_addrs(secs: &[(String, Vec<u8>)]) -> Result<String, String> {
+    let dwarf = load(secs, RunTimeEndian::Little);
+    let mut units = dwarf.units();
+    let header = units.next().map_err(|e| format!("{e:?}"))?.ok_or("no unit")?;
+    let unit = dwarf.unit(header).map_err(|e| format!("{e:?}"))?;
+    let mut out = Vec::new();
+    if let Some(program) = unit.line_program.clone() {
+        let mut rows = program.rows();
+        while let Some((_, row)) = rows.next_row().map_err(|e| format!("{e:?}"))? {
+            out.push(format!("{}{}", row.address(), if row.end_sequence() { "e" } else { "" }));
+        }
+    }
+    Ok(if out.is_empty() { "-".into() } else { out.join(",") })
+}
+
+/// `c12-lineaddr s8192,r,a4,r,e`: see lean/Gimli/Drv/C12.lean
+fn c12_lineaddr(ins: &str) -> Option<String> {
+    let mut prog = Vec::new();
+    // the reader's own rule, re-stated: is a row reported and then left without its end row?
+    let (mut addr, mut tomb, mut open, mut dangling) = (0u64, false, false, false);
+    for t in ins.split(',') {
+        match t.as_bytes().first()? {
+            b'r' => {
+                prog.push(1);
+                open |= !tomb;
+            }
+            b'e' => {
+                prog.extend_from_slice(&[0, 1, 1]);
+                dangling |= tomb && open;
+                (addr, tomb, open) = (0, false, false);
+            }
+            b's' => {
+                let a: u64 = t[1..].parse().ok()?;
+                prog.extend_from_slice(&[0, 9, 2]);
+                prog.extend_from_slice(&a.to_le_bytes());
+                tomb = a < addr || a >= u64::MAX - 1;
+                if !tomb {
+                    addr = a;
+                }
+            }
+            b'a' => {
+                let d: u64 = t[1..].parse().ok()?;
+                prog.push(2);
+                prog.extend(asm::uleb(d));
+                if !tomb {
+                    addr += d;
+                }
+            }
+            _ => return None,
+        }
+    }
+    let secs = assembled_line_unit_with(-5, 14, &prog);
+    let rin = match line_row_addrs(&secs) {
+        Ok(r) => r,
+        Err(e) => return Some(format!("ok input-rejected:{e}")),
+    };
+    Some(match convert_once(&secs, RunTimeEndian::Little) {
+        Err(_) => format!("ok in={rin} failed"),
+        Ok(b) => match line_row_addrs(&b) {
+            Ok(rout) if rout == rin || dangling => format!("ok in={rin} out={rout}"),
+            Ok(rout) => format!("ok in={rin} out={rout} #oracle:rows-differ the converted program reads back with other rows"),
+            Err(e) => format!("ok in={rin} out=? #oracle:output-unreadable {e}"),
+        },
+    })
+}
+
+/// `c12-cfiarith <caf> <daf> <delta> <f>`: see lean/Gimli/Drv/C12.lean
+fn c12_cfiarith(caf: u64, daf: i64, delta: u32, f: i64) -> String {
+    use gimli::read::UnwindSection;
+    let e = RunTimeEndian::Little;
+    let mut bytes = asm::debug_frame_cie(8, caf, daf, 16, &[0x0c, 7, 8]);
+    let mut insns = vec![0x04u8];
+    insns.extend_from_slice(&delta.to_le_bytes());
+    insns.push(0x11);
+    insns.push(3);
+    insns.extend(asm::sleb(f));
+    bytes.extend(asm::debug_frame_fde(8, 0, 0x1000, 0x100, &insns));
+    let name = |d: String| -> String {
+        let d = d.strip_prefix("Write(").unwrap_or(&d).to_string();
+        d.split('(').next().unwrap().trim_end_matches(')').to_string()
+    };
+    let mut s = gimli::read::DebugFrame::new(&bytes, e);
+    s.set_address_size(8);
+    let table = match write::FrameTable::from(&s, &|a| Some(Address::Constant(a))) {
+        Ok(t) => t,
+        Err(err) => return format!("ok conv:{}", name(format!("{err:?}"))),
+    };
+    let mut w = write::DebugFrame::from(EndianVec::new(e));
+    if let Err(err) = table.write_debug_frame(&mut w) {
+        return format!("ok write:{}", name(format!("{err:?}")));
+    }
+    let out = w.slice().to_vec();
+    let mut s2 = gimli::read::DebugFrame::new(&out, e);
+    s2.set_address_size(8);
+    let bases = gimli::read::BaseAddresses::default();
+    let mut entries = s2.entries(&bases);
+    let (mut d, mut fo) = (0u64, None);
+    loop {
+        match entries.next() {
+            Ok(Some(gimli::read::CieOrFde::Fde(p))) => {
+                let Ok(fde) = p.parse(|_, bases, o| s2.cie_from_offset(bases, o)) else { return "ok reread-failed #oracle:output-unreadable fde".into() };
+                let mut it = fde.instructions(&s2, &bases);
+                loop {
+                    match it.next() {
+                        Ok(Some(gimli::read::CallFrameInstruction::AdvanceLoc { delta })) => d += delta as u64,
+                        Ok(Some(gimli::read::CallFrameInstruction::Offset { factored_offset, .. })) => fo = Some(factored_offset as i128),
+                        Ok(Some(gimli::read::CallFrameInstruction::OffsetExtendedSf { factored_offset, .. })) => fo = Some(factored_offset as i128),
+                        Ok(Some(_)) => {}
+                        Ok(None) => break,
+                        Err(err) => return format!("ok reread-failed #oracle:output-unreadable {err:?}"),
+                    }
+                }
+            }
+            Ok(Some(_)) => {}
+            Ok(None) => break,
+            Err(err) => return format!("ok reread-failed #oracle:output-unreadable {err:?}"),
+        }
+    }
+    let Some(fo) = fo else { return "ok reread-failed #oracle:output-unreadable no offset instruction".into() };
+    // direct oracle: the written operands mean what the read operands meant
+    let mut reply = format!("ok d={d} f={fo}");
+    if fo * daf as i128 != f as i128 * daf as i128 {
+        reply += " #oracle:offset-changed data offset differs after conversion";
+    }
+    if d as u128 * caf as u128 != delta as u128 * caf as u128 {
+        reply += " #oracle:advance-changed code offset differs after conversion";
+    }
+    reply
 }
 
 // ------------------------------------------------------------------------------------------------
@@ -652,6 +788,88 @@ fn rand_cfi_program(rng: &mut Rng, in_cie: bool) -> Vec<u8> {
 
 pub fn gen(ctx: &Ctx, emit: &mut dyn FnMut(String)) {
     let mut rng = ctx.rng(12);
+    // Model/ConvLine.lean vs the code: every instruction list over a small alphabet up to a
+    // length (exhaustive), then random longer ones with several sequences
+    {
+        let alpha: Vec<String> = ["r", "e", "a0", "a8", "s4096", "s4100", "s16", "s0", "s18446744073709551615", "s18446744073709551614"].iter().map(|s| s.to_string()).collect();
+        let maxlen = if ctx.tier == Tier::Thorough { 5 } else { 4 };
+        let mut level: Vec<Vec<usize>> = vec![vec![]];
+        for _ in 0..maxlen {
+            let mut next = Vec::new();
+            for p in &level {
+                for i in 0..alpha.len() {
+                    let mut q = p.clone();
+                    q.push(i);
+                    next.push(q);
+                }
+            }
+            for p in &next {
+                // end every program with an end_sequence (an open one is a conversion error and is
+                // included as well, one in four)
+                let mut v: Vec<&str> = p.iter().map(|&i| alpha[i].as_str()).collect();
+                if p.iter().sum::<usize>() % 4 != 0 {
+                    v.push("e");
+                }
+                emit(format!("c12-lineaddr {}", v.join(",")));
+            }
+            level = next;
+        }
+        for _ in 0..ctx.n(3000, 60000) {
+            let mut v: Vec<String> = Vec::new();
+            let mut base = 0x1000 * (1 + rng.below(4));
+            for _ in 0..(1 + rng.below(14)) {
+                match rng.below(12) {
+                    0..=3 => v.push("r".into()),
+                    4..=5 => v.push(format!("a{}", rng.below(40))),
+                    6 => {
+                        base += rng.below(0x100);
+                        v.push(format!("s{base}"));
+                    }
+                    7 => v.push(format!("s{}", base - rng.below(0x40).min(base))),
+                    8 => v.push(format!("s{}", *rng.pick(&[0u64, 1, u64::MAX, u64::MAX - 1, u64::MAX - 2]))),
+                    9 => {
+                        v.push("e".into());
+                        base = 0x1000 * (1 + rng.below(4));
+                    }
+                    10 => v.push(format!("s{}", base + 0x800 + rng.below(0x100))),
+                    _ => v.push("r".into()),
+                }
+            }
+            if !rng.chance(1, 8) {
+                v.push("e".into());
+            }
+            emit(format!("c12-lineaddr {}", v.join(",")));
+        }
+    }
+    // Model/ConvCfi.lean vs the code: alignment factors x operands at every boundary
+    {
+        let cafs = [0u64, 1, 2, 4, 7, 255, 256, 1 << 32];
+        let dafs = [0i64, 1, -1, 2, -4, -8, 8, 127, -128, 128, -129, i64::MIN, i64::MAX];
+        let deltas = [0u32, 1, 3, 0x3f, 0x40, 0xff, 0x100, 0xffff, 0x10000, 0x0101_0101, 0x7fff_ffff, 0x8000_0000, u32::MAX];
+        let fs = [0i64, 1, -1, 2, -2, 16, -16, 0x7fff_ffff, -0x8000_0000, 0x8000_0000, -0x8000_0001, 0x0fff_ffff, -0x1000_0000, 1 << 40, i64::MAX, i64::MIN, (i32::MAX / 127) as i64, (i32::MAX / 127 + 1) as i64, (i32::MIN / 128) as i64, (i32::MIN / -128) as i64];
+        for &caf in &cafs {
+            for &daf in &dafs {
+                for &delta in &deltas {
+                    for &f in &fs {
+                        if ctx.tier == Tier::Thorough || rng.chance(1, 4) {
+                            emit(format!("c12-cfiarith {caf} {daf} {delta} {f}"));
+                        }
+                    }
+                }
+            }
+        }
+        for _ in 0..ctx.n(2000, 40000) {
+            let caf = if rng.chance(1, 8) { rng.below(600) } else { 1 + rng.below(16) };
+            let daf = if rng.chance(1, 8) { rng.below(400) as i64 - 200 } else { rng.below(33) as i64 - 16 };
+            let delta = if rng.chance(1, 4) { rng.next() as u32 } else { rng.below(0x20000) as u32 };
+            let f = match rng.below(4) {
+                0 => rng.next() as i64,
+                1 => (rng.next() as i32) as i64,
+                _ => rng.below(4096) as i64 - 2048,
+            };
+            emit(format!("c12-cfiarith {caf} {daf} {delta} {f}"));
+        }
+    }
     let rounds = ctx.n(40, 1500);
     for _ in 0..rounds {
         for version in [2u16, 3, 4, 5] {
